@@ -318,7 +318,23 @@ def set_item(st, obj, idx, val):
 
 
 def set_slice(st, obj, lo, hi, val):
-    raise Undecided('slice assignment')
+    E = _ex()
+    if obj.t.kind != 'list':
+        raise Undecided('slice assignment on %r' % (obj.t,))
+    et = obj.t.args[0]
+    E.check_or_raise(st, is_real_list(obj.z), 'TypeError')
+    E.check_frame_contents(st, obj.z)
+    s = st.list_seq(obj.z, et)
+    l = clamp(st, lo, s.n, z3.IntVal(0))
+    h = clamp(st, hi, s.n, s.n)
+    h = z3.If(h < l, l, h)
+    v, vet = seq_of(st, val)
+    if vet != et:
+        raise Undecided('slice assignment with different element type')
+    es = T.sort_of(et)
+    left = seq_slice(st, s, es, z3.IntVal(0), l)
+    right = seq_slice(st, s, es, h, s.n)
+    st.list_store(obj.z, et, seq_concat(st, seq_concat(st, left, v, es), right, es))
 
 
 def del_item(st, obj, idx):
